@@ -579,6 +579,47 @@ fn c12(quick: bool) -> Vec<Harness> {
             th.push(th_harness("C12", h));
         }
     }
+    {
+        // The Ring dropped on its own thread while another thread drops / releases / wakes / first-polls
+        // an object that shares its submission queue.
+        use crate::thworld::{C12Act::*, C12ThCfg, c12_threads};
+        let pb = if quick { 2 } else { 3 };
+        let mut sets: Vec<(Vec<crate::thworld::C12Act>, usize, u32, bool)> = vec![
+            (vec![DropFd], 0, 4, false),
+            (vec![DropFd], 1, 1, false),
+            (vec![DropDirectFd], 0, 4, false),
+            (vec![ReleaseBuf], 0, 4, false),
+            (vec![DropFreshBufAndPool], 0, 4, false),
+            (vec![Wake], 0, 4, false),
+            (vec![DropSqClone], 0, 4, false),
+            (vec![DropInflight(Kind::ReadVec)], 0, 4, false),
+            (vec![DropInflight(Kind::MultishotRead)], 0, 4, false),
+            (vec![DropQueued(Kind::WriteVec)], 0, 4, false),
+            (vec![FirstPoll(Kind::ReadVec)], 0, 4, false),
+            (vec![DropFd, DropInflight(Kind::ReadVec)], 0, 2, false),
+            (vec![DropFd], 0, 4, true),
+            (vec![DropInflight(Kind::ReadVec)], 0, 4, true),
+        ];
+        if !quick {
+            sets.extend([
+                (vec![DropDirectFd], 1, 1, false),
+                (vec![DropInflight(Kind::SendZc)], 0, 4, false),
+                (vec![DropInflight(Kind::SendZc)], 1, 4, false),
+                (vec![DropFd, ReleaseBuf], 0, 4, false),
+                (vec![Wake, DropInflight(Kind::ReadVec)], 1, 2, false),
+                (vec![DropDirectFd, DropQueued(Kind::WriteVec)], 0, 2, false),
+                (vec![Wake], 0, 4, true),
+                (vec![ReleaseBuf], 0, 4, true),
+                (vec![FirstPoll(Kind::ReadVec)], 1, 1, false),
+                (vec![DropQueued(Kind::WriteVec), DropInflight(Kind::MultishotRead)], 0, 2, false),
+            ]);
+        }
+        for (acts, ring_polls, sq, sqpoll) in sets {
+            let mut h = c12_threads(C12ThCfg { acts, ring_polls, sq, sqpoll, prop: "C12" }, pb);
+            h.cap_s = if quick { 0 } else { 600 };
+            th.push(th_harness("C12", h));
+        }
+    }
     let mut out = th;
     out.push(Harness {
         name: "drop-permutations".to_string(),
@@ -693,6 +734,13 @@ fn c11(quick: bool) -> Vec<Harness> {
     for mode in [RingMode::Default, RingMode::KernelThread, RingMode::SingleIssuer] {
         v.push(th_harness("C11", c11(C11Cfg { mode, polls: vec![None, None], wakers: 1, wakes_each: 1, sq: 2, sq_full: false, pre_posted: vec![0] }, pb)));
         v.push(th_harness("C11", c11(C11Cfg { mode, polls: vec![Some(0), None, None], wakers: 1, wakes_each: 1, sq: 2, sq_full: false, pre_posted: vec![1] }, pb)));
+    }
+    {
+        // wake() racing with the Ring being dropped on another thread ("harmless").
+        use crate::thworld::{C12Act, C12ThCfg, c12_threads};
+        for (acts, ring_polls, sq, sqpoll) in [(vec![C12Act::Wake], 0usize, 2u32, false), (vec![C12Act::Wake, C12Act::Wake], 1, 1, false), (vec![C12Act::Wake], 0, 2, true)] {
+            v.push(th_harness("C11", c12_threads(C12ThCfg { acts, ring_polls, sq, sqpoll, prop: "C11" }, pb)));
+        }
     }
     v
 }
